@@ -10,6 +10,7 @@
 -/
 import ModVerif.Proofs.PseudoFinal
 import ModVerif.Proofs.PseudoTime
+import ModVerif.Proofs.PseudoCivil
 namespace ModVerif.Props.C18
 open ModVerif ModVerif.PseudoSpec ModVerif.Proofs.Pseudo
 open ModVerif.Pseudo hiding isDigit isAlnum
@@ -147,6 +148,61 @@ theorem formatUnix_ts (secs : Int) (h1 : -62135596800 ≤ secs) (h2 : secs ≤ 2
     ⟨by omega, by omega, by omega, by omega, by omega, by omega⟩ ⟨by omega, by omega, by omega, by omega, by omega, by omega⟩).1
 
 example : (-62135596800 : Int) ≤ 1700000000 ∧ (1700000000 : Int) ≤ 253402300799 := by decide
+
+/-! ## from the Unix instant (not only from the stamp) -/
+
+/-- The civil date computed for an instant in years 0001–9999 is a real calendar date: the day exists in the
+    month of that year (28/29/30/31 days, Gregorian leap rule). -/
+theorem civilFromUnix_validDate (secs : Int) (h1 : -62135596800 ≤ secs) (h2 : secs ≤ 253402300799) :
+    1 ≤ (civilFromUnix secs).2.2.1 ∧
+    (civilFromUnix secs).2.2.1 ≤ daysIn (civilFromUnix secs).2.1 (civilFromUnix secs).1.toNat :=
+  civilFromUnix_validDate_aux secs (by have := (civilFromUnix_range secs h1 h2).1; omega)
+
+/-- Hence the stamp of every such instant passes the validation of PseudoVersionTime (time.Parse): the `if` of
+    `pseudo_roundtrip` is always the `ok` branch for `ts = formatUnix secs`. -/
+theorem timeValid_formatUnix (secs : Int) (h1 : -62135596800 ≤ secs) (h2 : secs ≤ 253402300799) :
+    timeValid (formatUnix secs) = true :=
+  timeValid_formatUnix_aux secs h1 h2
+
+/-- Round trip from the instant: PseudoVersionTime of the generated pseudo-version returns the stamp of the instant. -/
+theorem pseudo_roundtrip_unix (major older rev : Bytes) (secs : Int)
+    (hbase : Semver.isValid older = true ∨ (older = [] ∧ MajorArg major)) (hrev : Rev rev)
+    (h1 : -62135596800 ≤ secs) (h2 : secs ≤ 253402300799) :
+    ∃ pv, pseudoVersion major older (formatUnix secs) rev = .ok pv ∧
+      pseudoVersionBase pv = .ok (Semver.canonical older ++ Semver.build older) ∧
+      pseudoVersionRev pv = .ok rev ∧ pseudoVersionTime pv = .ok (formatUnix secs) := by
+  obtain ⟨pv, a, b, c, d⟩ := pseudo_roundtrip major older (formatUnix secs) rev hbase (formatUnix_ts secs h1 h2) hrev
+  rw [timeValid_formatUnix secs h1 h2] at d
+  exact ⟨pv, a, b, c, d⟩
+
+/-- The civil fields are strictly monotone in the instant (lexicographic order, year as a natural number). -/
+theorem civilFromUnix_mono (s1 s2 : Int) (h11 : -62135596800 ≤ s1) (_h12 : s1 ≤ 253402300799)
+    (_h21 : -62135596800 ≤ s2) (h22 : s2 ≤ 253402300799) (h : s1 < s2) :
+    civilLt ((civilFromUnix s1).1.toNat, (civilFromUnix s1).2) ((civilFromUnix s2).1.toNat, (civilFromUnix s2).2) :=
+  civilFromUnix_mono_aux s1 s2 h
+    (by have := (civilFromUnix_range s1 h11 (by omega)).1; omega)
+    (by have := (civilFromUnix_range s2 (by omega) h22).1; omega)
+
+/-- … and so are the stamps, bytewise. -/
+theorem formatUnix_mono (s1 s2 : Int) (h11 : -62135596800 ≤ s1) (h12 : s1 ≤ 253402300799)
+    (h21 : -62135596800 ≤ s2) (h22 : s2 ≤ 253402300799) (h : s1 < s2) :
+    bytesLt (formatUnix s1) (formatUnix s2) = true :=
+  formatUnix_mono_aux s1 s2 h11 h12 h21 h22 h
+
+/-- "A later time gives a higher version", from the Unix instants: for the same (major, base), the commit with the
+    earlier instant gets the strictly lower pseudo-version, whatever the two revisions are. -/
+theorem pseudo_time_mono_unix (major older rev1 rev2 : Bytes) (s1 s2 : Int)
+    (hbase : Semver.isValid older = true ∨ (older = [] ∧ MajorArg major)) (r1 : Rev rev1) (r2 : Rev rev2)
+    (h11 : -62135596800 ≤ s1) (h12 : s1 ≤ 253402300799) (h21 : -62135596800 ≤ s2) (h22 : s2 ≤ 253402300799)
+    (h : s1 < s2) :
+    ∃ pv1 pv2, pseudoVersion major older (formatUnix s1) rev1 = .ok pv1 ∧
+      pseudoVersion major older (formatUnix s2) rev2 = .ok pv2 ∧ Semver.compare pv1 pv2 = -1 :=
+  pseudo_time_mono major older _ _ rev1 rev2 hbase (formatUnix_ts s1 h11 h12) (formatUnix_ts s2 h21 h22) r1 r2
+    (formatUnix_mono s1 s2 h11 h12 h21 h22 h)
+
+/-- two instants one second apart across a leap day: 2024-02-29T23:59:59Z and 2024-03-01T00:00:00Z -/
+example : (-62135596800 : Int) ≤ 1709251199 ∧ (1709251200 : Int) ≤ 253402300799 ∧ (1709251199 : Int) < 1709251200
+    ∧ civilFromUnix 1709251199 = (2024, 2, 29, 23, 59, 59) ∧ civilFromUnix 1709251200 = (2024, 3, 1, 0, 0, 0) := by decide
 
 /-- The zero pseudo-version (time.Time{} and twelve zeros) is recognised as a pseudo-version and is
     exactly what IsZeroPseudoVersion accepts for its major version. -/
